@@ -198,7 +198,8 @@ func runC06(c *core.Ctx) {
 	// model
 	seqKnown, tsKnown := false, false
 	var seq uint16
-	var ts uint32
+	var ts, tsAlt uint32
+	tsAltOK := false // after an empty-payload call the running timestamp is ts or tsAlt
 	absID := 0
 	nops := 1 + t.Intn(40)
 	var fp []uint64
@@ -221,8 +222,31 @@ func runC06(c *core.Ctx) {
 		if k >= nops || len(c.Viol) > 0 {
 			return
 		}
-		op := t.Weighted(6, 1, 1, 1)
+		op := t.Weighted(6, 1, 1, 1, 1)
 		switch op {
+		case 4: // Packetize with a nil or empty payload: legal, returns nothing
+			var payload []byte
+			if t.Bool() {
+				payload = []byte{}
+			}
+			samples := uint32([]int{960, 3000, 1}[t.Intn(3)])
+			var pkts []*rtp.Packet
+			if c.Guard("rtp.Packetizer.Packetize", func() { pkts = pk.Packetize(payload, samples) }) {
+				return
+			}
+			c.Logf("Packetize(empty payload, %d samples) -> %d packets", samples, len(pkts))
+			if len(pkts) != 0 {
+				c.Violate("train", "C06/train/packets-for-empty-payload", "Packetize of an empty payload returned %d packets", len(pkts))
+				return
+			}
+			// the statement does not say whether such a call advances the timestamp by its samples: both are accepted
+			if tsKnown && !tsAltOK {
+				tsAlt, tsAltOK = ts+samples, true
+			} else if tsKnown {
+				tsKnown, tsAltOK = false, false // two undetermined calls in a row: re-learn the timestamp from the next packet
+			}
+			c.Probe("empty-payload-call")
+			fp = append(fp, 5<<8)
 		case 0: // Packetize
 			budget := mtu - 12
 			var payload []byte
@@ -295,6 +319,12 @@ func runC06(c *core.Ctx) {
 				}
 				if !tsKnown {
 					ts, tsKnown = p.Timestamp, true
+				}
+				if tsAltOK {
+					if p.Timestamp == tsAlt {
+						ts = tsAlt
+					}
+					tsAltOK = false
 				}
 				if p.Timestamp != ts {
 					c.Violate("train", "C06/train/timestamp", "packet %d has timestamp %d, the running timestamp is %d", i, p.Timestamp, ts)
@@ -400,6 +430,7 @@ func runC06(c *core.Ctx) {
 					c.Probe("ts-wrap")
 				}
 				ts += n
+				tsAlt += n
 			}
 			fp = append(fp, 2<<8)
 		case 2: // GeneratePadding
